@@ -65,6 +65,25 @@ int main(int argc, char** argv) {
       if (t.isError() == v) { if (bad < 20) printf("{\"h\":%d,\"m\":%d,\"s\":%d,\"isError\":%d}\n", h, m, s, (int) t.isError()); bad++; }
       if (v && !(h == 24)) { if (t.toSeconds() != h * 3600 + m * 60 + s) { if (bad < 20) printf("{\"h\":%d,\"m\":%d,\"s\":%d,\"toSeconds\":%ld}\n", h, m, s, (long) t.toSeconds()); bad++; } }
     }
+    // dates: every (month, day) byte pair x boundary years -- isError() is exactly the documented component-range contract
+    // (year 1873..2127, month 1..12, day 1..31), for LocalDate and for the date part of LocalDateTime / OffsetDateTime
+    {
+      static const int years[] = {-32768, 0, 1872, 1873, 1999, 2000, 2100, 2127, 2128, 32767};
+      for (int y : years) for (int mo = 0; mo < 256; mo++) for (int d = 0; d < 256; d++) {
+        bool v = y >= 1873 && y <= 2127 && mo >= 1 && mo <= 12 && d >= 1 && d <= 31;
+        LocalDate ld = LocalDate::forComponents((int16_t) y, (uint8_t) mo, (uint8_t) d);
+        LocalDateTime ldt = LocalDateTime::forComponents((int16_t) y, (uint8_t) mo, (uint8_t) d, 12, 0, 0);
+        OffsetDateTime odt = OffsetDateTime::forComponents((int16_t) y, (uint8_t) mo, (uint8_t) d, 12, 0, 0, TimeOffset::forHours(1));
+        if (ld.isError() == v || ldt.isError() == v || odt.isError() == v) {
+          if (bad < 20) printf("{\"y\":%d,\"month\":%d,\"day\":%d,\"isError\":[%d,%d,%d]}\n", y, mo, d, (int) ld.isError(), (int) ldt.isError(), (int) odt.isError());
+          bad++;
+        }
+        if (!v && (ld.toEpochDays() != LocalDate::kInvalidEpochDays || ldt.toEpochSeconds() != LocalDate::kInvalidEpochSeconds)) {
+          if (bad < 20) printf("{\"y\":%d,\"month\":%d,\"day\":%d,\"toEpochDays\":%ld}\n", y, mo, d, (long) ld.toEpochDays());
+          bad++;
+        }
+      }
+    }
     // class table for the cross-check of the predicate used above against TLC's
     static const int cls[] = {0, 1, 58, 59, 60, 61, 255};
     printf("{\"classes\":[");
